@@ -602,7 +602,11 @@ func (m *NodeManager) synchronizeBlocks(ctx context.Context, interrupt <-chan in
 	done := false
 	for _, hash := range hashes {
 		complete, abort := blockManager.AddRequest(ctx, hash, height, m.blockTxProcessor)
+		if complete == nil {
+			return nil // block manager has stopped
+		}
 		blockDone := false
+		aborted := false
 
 		for !blockDone {
 			select {
@@ -617,7 +621,10 @@ func (m *NodeManager) synchronizeBlocks(ctx context.Context, interrupt <-chan in
 						logger.Stringer("block_hash", hash),
 						logger.Int("block_height", height),
 					}, "Aborting orphaned block")
-					close(abort)
+					if !aborted {
+						close(abort)
+						aborted = true
+					}
 				}
 
 			case err := <-complete:
